@@ -162,6 +162,43 @@ fn quat_pair<S: P19, T: P19 + cgmath::BaseFloat>(d: &mut Draw) -> Outcome {
     pass(if f { "none" } else { "some" }, true)
 }
 
+/// Quaternion::cast only takes float targets, and no primitive conversion into f32/f64 ever fails, so
+/// with primitives its None side is unreachable. The exact scalar Q is a BaseFloat whose NumCast
+/// fails on NaN and infinities: through it the "None iff a component fails" direction is reached,
+/// for the scalar part and for each vector component separately.
+fn quat_to_exact<S: P19 + num_traits::Float + std::fmt::Debug>(d: &mut Draw) -> Outcome {
+    use vcore::q::Q;
+    let vals: [f64; 10] = [f64::NAN, f64::INFINITY, f64::NEG_INFINITY, 0.0, 1.0, -2.5, 255.0, 0.25, -1024.0, 3.0];
+    let shape = d.int(0, 3);
+    let pos = d.below(4);
+    let comps: Vec<S> = (0..4)
+        .map(|i| {
+            let k = if shape == 0 || (shape < 3 && i == pos) { d.below(10) } else { 3 + d.below(7) };
+            <S as NumCast>::from(vals[k]).unwrap()
+        })
+        .collect();
+    d.note("Quaternion (s, x, y, z)", &comps);
+    let want: Vec<Option<Q>> = comps.iter().map(|c| <Q as NumCast>::from(*c)).collect();
+    let src = Quaternion::new(comps[0], comps[1], comps[2], comps[3]);
+    let got: Option<Quaternion<Q>> = src.cast::<Q>();
+    let any_fail = want.iter().any(|w| w.is_none());
+    let vgot: Option<Vector4<Q>> = Vector4::new(comps[0], comps[1], comps[2], comps[3]).cast::<Q>();
+    ensure!(vgot.is_none() == any_fail, "vector4-to-exact", "Vector4::cast::<Q>() is {:?} for {:?}", vgot, comps);
+    match got {
+        None => ensure!(any_fail, "none-but-all-castable", "Quaternion::cast::<Q>() is None although every component converts: {:?}", comps),
+        Some(g) => {
+            ensure!(!any_fail, "some-but-component-fails", "Quaternion::cast::<Q>() is Some({:?}) although a component does not convert: {:?}", g, comps);
+            let gc = [g.s, g.v.x, g.v.y, g.v.z];
+            for i in 0..4 {
+                ensure!(Some(gc[i]) == want[i], "component-not-faithful", "Quaternion::cast::<Q>(): component {} is {:?}, scalar cast of {:?} gives {:?}", i, gc[i], comps[i], want[i]);
+            }
+        }
+    }
+    d.configs += 1;
+    let first_fail = want.iter().position(|w| w.is_none());
+    pass(match (any_fail, first_fail) { (false, _) => "some", (true, Some(0)) => "none-scalar-part-fails", _ => "none-vector-part-fails" }, true)
+}
+
 pub fn property() -> Property {
     let mut s: Vec<SubCheck> = Vec::new();
     const R: &str = "every generated compound value; shapes: all components from the edge set / safe values with one edge component at a drawn position / all safe";
@@ -189,6 +226,9 @@ pub fn property() -> Property {
     row!(isize, "isize");
     row!(f32, "f32");
     row!(f64, "f64");
+    const RQ: &[(&str, u32)] = &[("some", 100), ("none-scalar-part-fails", 50), ("none-vector-part-fails", 100)];
+    s.push(SubCheck { name: "quaternion-f64-to-Q", scalar: "f64", quick: 1000, thorough: 50_000, len: 24, f: quat_to_exact::<f64>, required: RQ, rule: R, exhaustive: false });
+    s.push(SubCheck { name: "quaternion-f32-to-Q", scalar: "f32", quick: 1000, thorough: 50_000, len: 24, f: quat_to_exact::<f32>, required: RQ, rule: R, exhaustive: false });
     Property {
         id: "C19",
         title: "Numeric cast of compound values is all-or-nothing and component-faithful",
